@@ -1756,7 +1756,7 @@ send_task(int whither, echs_task_t t)
 	fdbang(whither);
 
 	if (t->oid) {
-		fdprintf("UID:%s\n", obint_name(t->oid));
+		send_text("UID", obint_name(t->oid));
 	} else {
 		/* it's mandatory, so generate one */
 		fdprintf("UID:echse_merged_vevent_%u\n", auto_uid);
@@ -1801,11 +1801,11 @@ send_task(int whither, echs_task_t t)
 		send_text("DESCRIPTION", t->desc);
 	}
 	if (t->org) {
-		fdprintf("ORGANIZER:%s\n", t->org);
+		send_text("ORGANIZER", t->org);
 	}
 	if (t->att) {
 		for (const char *const *ap = t->att->l; *ap; ap++) {
-			fdprintf("ATTENDEE:%s\n", *ap);
+			send_text("ATTENDEE", *ap);
 		}
 	}
 	if (t->in) {
@@ -1822,7 +1822,7 @@ send_task(int whither, echs_task_t t)
 		uintptr_t tmpn;
 
 		if ((tmps = nummapstr_str(u))) {
-			fdprintf("X-ECHS-SETUID:%s\n", tmps);
+			send_text("X-ECHS-SETUID", tmps);
 		} else if ((tmpn = nummapstr_num(u)) != NUMMAPSTR_NAN) {
 			fdprintf("X-ECHS-SETUID:%u\n", (unsigned int)tmpn);
 		}
@@ -1832,7 +1832,7 @@ send_task(int whither, echs_task_t t)
 		uintptr_t tmpn;
 
 		if ((tmps = nummapstr_str(g))) {
-			fdprintf("X-ECHS-SETGID:%s\n", tmps);
+			send_text("X-ECHS-SETGID", tmps);
 		} else if ((tmpn = nummapstr_num(g)) != NUMMAPSTR_NAN) {
 			fdprintf("X-ECHS-SETGID:%u\n", (unsigned int)tmpn);
 		}
@@ -3208,7 +3208,7 @@ echs_unsc_icalify(int whither, const char *tuid)
 
 	fdbang(whither);
 	send_ical_hdr(whither, false);
-	fdprintf("UID:%s\n", tuid);
+	send_text("UID", tuid);
 	fdwrite(sta, strlenof(sta));
 	send_ical_ftr(whither, false);
 	return;
@@ -3244,7 +3244,7 @@ CALSCALE:GREGORIAN\n";
 			uintptr_t n;
 
 			if ((p = nummapstr_str(o))) {
-				fdprintf("X-ECHS-OWNER:%s\n", p);
+				send_text("X-ECHS-OWNER", p);
 			} else if ((n = nummapstr_num(o)) < NUMMAPSTR_NAN &&
 				   (unsigned int)n < -1U) {
 				fdprintf("X-ECHS-OWNER:%u\n", (unsigned int)n);
